@@ -59,9 +59,15 @@ def ev_from_json(j):
 class Session:
     """Runs events on both sides; raises Divergence at the first difference."""
 
-    def __init__(self, version=7, seed=0, compare_state=True, observers=()):
+    def __init__(self, version=7, seed=0, compare_state=True, observers=(), sched=False):
         self.version = version
-        self.impl = I.Impl(version=version, seed=seed)
+        if sched:
+            import sched as Sc
+            self.impl = Sc.SchedImpl(version=version, seed=seed)
+            self.impl.parked_kind = {}
+        else:
+            self.impl = I.Impl(version=version, seed=seed)
+        self.sched = sched
         self.model = get_model(version)
         self.queues = {}          # conn -> list of queued command names (None when not in MULTI)
         self.compare_state = compare_state
@@ -90,6 +96,8 @@ class Session:
             self.impl.srv.connected = bool(ev[1]); self.model.ask('conn %d' % (1 if ev[1] else 0))
         elif kind == 'cmd':
             self.cmd(ev, ev[1], ev[2])
+        elif kind in ('wake', 'timeout'):
+            self.resume(ev, ev[1], kind == 'wake')
         elif kind == 'send':
             self.raw_send(ev, ev[1], ev[2])
         else:
@@ -100,12 +108,26 @@ class Session:
         self.stats['cmds'] += 1
         name = Cn.name_of(fields)
         before = self.impl.snapshot_struct() if self.observers else None
+        if self.sched:
+            self.impl.parked_kind[c] = name
         out_i, crash_i, clocks, picks = self.impl.send(c, encode_request(fields))
         self.last_out = out_i
         mine = out_i.get(c, [])
         self.last_raw = mine[0] if len(mine) == 1 else mine
-        line = self.model.cmd(c, model_fields(fields), clocks, picks)
+        line = self.model.cmd(c, model_fields(fields), clocks, picks, park=self.sched)
         self.compare_outputs(ev, c, name, out_i, crash_i, line)
+        if self.compare_state:
+            self.compare_snap(ev)
+        for ob in self.observers:
+            ob(self, ev, name, before, out_i, crash_i)
+
+    def resume(self, ev, c, wake):
+        before = self.impl.snapshot_struct() if self.observers else None
+        name = self.impl.parked_kind.get(c)
+        out_i, crash_i, clocks, picks = self.impl.resume(c, wake)
+        self.last_out = out_i
+        line = self.model.ask('wake %d %s' % (c, Mo.fmt_clocks(clocks))) if wake else self.model.ask('timeout %d' % c)
+        self.compare_outputs(ev, c, None, out_i, crash_i, line)
         if self.compare_state:
             self.compare_snap(ev)
         for ob in self.observers:
